@@ -75,6 +75,72 @@ var images = map[string]imageClass{
 	"unique":   {Name: "unique", Files: with(objs("a", "b"), map[string]string{"manifest.yaml": manifestWith("  - uniqueInScope: {}\n")}), Invalid: "constraint-unique"},
 }
 
+// constraint grammar: one manifest constraint entry = optional platform list x optional platform
+// version range; images "c:<platform>:<version>" carry one entry, "c2:<platform>|<version>" and
+// "c2:<version>|<platform>" the same two requirements as separate entries in either order.
+type consEntry struct {
+	Platform string // "", k, o
+	Version  string // "", k-ok, k-bad, o-ok, o-bad
+}
+
+var versionRanges = map[string][2]string{
+	"k-ok": {"Kubernetes", ">=1.20.0"}, "k-bad": {"Kubernetes", ">=1.30.0"},
+	"o-ok": {"OpenShift", ">=4.10.0"}, "o-bad": {"OpenShift", ">=4.13.0"},
+}
+
+func (e consEntry) yaml() string {
+	var parts []string
+	if e.Platform != "" {
+		parts = append(parts, "platform: ["+map[string]string{"k": "Kubernetes", "o": "OpenShift"}[e.Platform]+"]")
+	}
+	if e.Version != "" {
+		vr := versionRanges[e.Version]
+		parts = append(parts, "platformVersion:\n      name: "+vr[0]+"\n      range: \""+vr[1]+"\"")
+	}
+	return "  - " + strings.Join(parts, "\n    ") + "\n"
+}
+
+// met is the reference semantics written from the API documentation: a platform requirement
+// needs that platform; a version requirement is ignored on a different platform.
+func (e consEntry) met(env manifests.PackageEnvironment) bool {
+	if e.Platform == "o" && env.OpenShift == nil {
+		return false
+	}
+	switch e.Version {
+	case "k-bad":
+		return env.Kubernetes.Version >= "v1.30"
+	case "o-bad":
+		return env.OpenShift == nil || env.OpenShift.Version >= "4.13"
+	}
+	return true
+}
+
+var consImages = map[string][]consEntry{}
+
+func init() {
+	for _, p := range []string{"", "k", "o"} {
+		for _, v := range []string{"", "k-ok", "k-bad", "o-ok", "o-bad"} {
+			if p == "" && v == "" {
+				continue
+			}
+			consImages["c:"+p+":"+v] = []consEntry{{p, v}}
+		}
+	}
+	for _, p := range []string{"k", "o"} {
+		for _, v := range []string{"k-bad", "o-bad"} {
+			consImages["c2:"+p+"|"+v] = []consEntry{{Platform: p}, {Version: v}}
+			consImages["c2:"+v+"|"+p] = []consEntry{{Version: v}, {Platform: p}}
+		}
+	}
+	for name, entries := range consImages {
+		y := ""
+		for _, e := range entries {
+			y += e.yaml()
+		}
+		images[name] = imageClass{Name: name, Files: with(objs("a", "b"), map[string]string{"manifest.yaml": manifestWith(y)}), Invalid: "constraint-grammar"}
+	}
+}
+
 var envs = map[string]manifests.PackageEnvironment{
 	"k8s-1.27": {Kubernetes: manifests.PackageEnvironmentKubernetes{Version: "v1.27.0"}},
 	"ocp-4.12": {Kubernetes: manifests.PackageEnvironmentKubernetes{Version: "v1.31.0"}, OpenShift: &manifests.PackageEnvironmentOpenShift{Version: "4.12.0"}},
@@ -128,6 +194,12 @@ func validity(sc scenario, w *world.World, c map[string]any) string {
 	case "constraint-version":
 		if envs[sc.Env].Kubernetes.Version < "v1.30" {
 			return "constraint"
+		}
+	case "constraint-grammar":
+		for _, e := range consImages[image] {
+			if !e.met(envs[sc.Env]) {
+				return "constraint"
+			}
 		}
 	case "constraint-unique":
 		n := 0
@@ -448,6 +520,15 @@ func system(sc scenario) *world.System {
 	}
 }
 
+func consImageNames() []string {
+	var out []string
+	for n := range consImages {
+		out = append(out, n)
+	}
+	sort.Strings(out)
+	return out
+}
+
 func scenarios(quick bool) []scenario {
 	all := []string{"v1", "v2", "tmpl", "missing", "nomanifest", "twomanifests", "badyaml", "nophase", "openshiftonly", "k8s130", "unique"}
 	sort.Strings(all)
@@ -457,6 +538,8 @@ func scenarios(quick bool) []scenario {
 		{Env: "k8s-1.27", Images: []string{"unique", "v1", "tmpl"}, Confs: []string{"none", "x1", "x2"}, Edits: 2, Twin: true, Pauses: 1},
 		{Env: "k8s-1.27", Images: []string{"tmpl", "v2", "nophase"}, Confs: []string{"none", "x1", "x2", "bad"}, Edits: 2, Faults: 1, Pauses: 1},
 		{Env: "k8s-1.27", Images: []string{"v1", "v2", "tmpl"}, Confs: []string{"none", "x1"}, Edits: 2, Races: 1},
+		{Env: "k8s-1.27", Images: append([]string{"v1"}, consImageNames()...), Confs: []string{"none"}, Edits: 2},
+		{Env: "ocp-4.12", Images: append([]string{"v1"}, consImageNames()...), Confs: []string{"none"}, Edits: 2},
 	}
 	if !quick {
 		out = append(out,
@@ -471,7 +554,7 @@ func scenarios(quick bool) []scenario {
 
 func run(o checks.Opts) *report.Report {
 	rep := report.New("C16", "bfs")
-	rep.Rule = "explicit-state BFS: Package p whose image is switched among {valid v1, valid v2, templated, not in registry, no manifest, two manifests, malformed object YAML, object without phase annotation, OpenShift-only, Kubernetes>=1.30, uniqueInScope} and whose config among {none, x:1, x:2, schema-violating}, 2-3 edits, pause/unpause, a foreign write to the ObjectDeployment landing before each API call of the pass (update conflict), every fault kind at every API call of the Package controller's pass, environments Kubernetes 1.27 / OpenShift 4.12, optional twin Package with the same manifest name; real Package controller + PackageDeployer + scripted registry; monitor on every Package pass; fresh-render differential oracle for valid specs"
+	rep.Rule = "explicit-state BFS: Package p whose image is switched among {valid v1, valid v2, templated, not in registry, no manifest, two manifests, malformed object YAML, object without phase annotation, OpenShift-only, Kubernetes>=1.30, uniqueInScope, and every manifest constraint entry of the grammar {no platform, [Kubernetes], [OpenShift]} x {no version, Kubernetes met/unmet, OpenShift met/unmet} as one entry and as two entries in either order} and whose config among {none, x:1, x:2, schema-violating}, 2-3 edits, pause/unpause, a foreign write to the ObjectDeployment landing before each API call of the pass (update conflict), every fault kind at every API call of the Package controller's pass, environments Kubernetes 1.27 / OpenShift 4.12, optional twin Package with the same manifest name; real Package controller + PackageDeployer + scripted registry; monitor on every Package pass; fresh-render differential oracle for valid specs"
 	scs := scenarios(o.Quick())
 	rep.Bounds["systems"] = len(scs)
 	for i, sc := range scs {
@@ -504,9 +587,9 @@ func init() {
 		},
 		Subs: []*checks.Sub{{Name: "bfs", Shards: func(t string) int {
 			if t == "thorough" {
-				return 8
+				return 10
 			}
-			return 5
+			return 7
 		}, Run: run, Replay: replay, Parallel: true}},
 	})
 }
